@@ -82,6 +82,28 @@ def follower (cfg : Cfg) (msgs : List Msg) : Option (Option (Nat × Nat) × List
 def followerSeq (cfgs : List (Cfg × List Msg)) : List (Option (Option (Nat × Nat) × List Fault)) :=
   cfgs.map fun c => follower c.1 c.2
 
+/-! ## `coordinate()` on the follower side: the routine's context ends at the end of the
+active phase (`window.activePhaseEndBlock()`), so the history the routine sees is what arrived
+before the chain clock reached that block. -/
+
+inductive Ev
+  | msg (m : Msg)
+  | clock (block : Nat)   -- the chain clock reaches `block`
+
+/-- `coordinationWindow.activePhaseEndBlock` -/
+def activePhaseEndBlock (coordinationBlock : Nat) : Nat :=
+  coordinationBlock + Gen.C24.activePhaseDurationBlocks
+
+/-- the messages delivered before the clock reached `endB` -/
+def activeMsgs (endB : Nat) : List Ev → List Msg
+  | [] => []
+  | .msg m :: r => m :: activeMsgs endB r
+  | .clock b :: r => if endB ≤ b then [] else activeMsgs endB r
+
+/-- follower side of `coordinate`: the block the context is cancelled at, and the routine's result -/
+def coordinateFollower (cfg : Cfg) (evs : List Ev) : Nat × Option (Option (Nat × Nat) × List Fault) :=
+  (activePhaseEndBlock cfg.block, follower cfg (activeMsgs (activePhaseEndBlock cfg.block) evs))
+
 /-! ## Monitor: the property as a predicate on (history, what the implementation returned) -/
 
 /-- passed type / self / membership / window / wallet filters -/
